@@ -22,7 +22,7 @@ SPEC = dict(
         "initial {pep440_version} text is what bumpver itself renders for the current version (setup only)",
         "one case in eight is a legacy {..} layout (decorated {version} patterns, own and shared lines, LF/CRLF/CR)",
     ],
-    required=["update_ok", "show_ok", "updates_with_config_file_listed_under_another_spelling", "updates_where_a_pattern_also_matches_inside_another_occurrence", "updates_with_listed_config_file_lacking_the_own_line_pattern", "set_version_in_noncanonical_spelling", "updates_with_repeated_pattern_in_mixed_eol_file", "aliased_path_entry_updates", "updates_with_end_anchored_patterns", "shared_line_updates", "updates_with_a_pattern_on_several_lines",
+    required=["update_ok", "show_ok", "updates_of_files_with_bom_and_start_anchored_pattern", "updates_with_a_literal_digit_before_a_part", "updates_with_config_file_listed_under_another_spelling", "updates_where_a_pattern_also_matches_inside_another_occurrence", "updates_with_listed_config_file_lacking_the_own_line_pattern", "set_version_in_noncanonical_spelling", "updates_with_repeated_pattern_in_mixed_eol_file", "aliased_path_entry_updates", "updates_with_end_anchored_patterns", "shared_line_updates", "updates_with_a_pattern_on_several_lines",
               "legacy_updates_ok", "legacy_shared_line_updates"],
     anchors=[("parse", "iter_matches"), ("v2rewrite", "rewrite_lines"), ("v2patterns", "normalize_pattern"),
              ("config", "_parse_raw_config")],
@@ -47,6 +47,17 @@ def cases(ctx):
     for i in range(n):
         yield {"pseed": ctx.rng.getrandbits(48), "legacy": i % 8 == 7}
     k = 0
+    for legacy in (False, True):
+        for eol in ("\n", "\r\n"):
+            for dollar in (False, True):
+                if ctx.mine(k):
+                    yield {"kind": "bom", "legacy": legacy, "eol": eol, "dollar": dollar}
+                k += 1
+    for gi in range(len(GLUED)):
+        for eol in ("\n", "\r\n"):
+            if ctx.mine(k):
+                yield {"kind": "glued", "i": gi, "eol": eol}
+            k += 1
     for ii in range(len(INNER)):
         for li in range(len(INNER_LINES)):
             for eol in ("\n", "\r\n"):
@@ -55,6 +66,72 @@ def cases(ctx):
                         if ctx.mine(k):
                             yield {"kind": "inner-match", "i": ii, "line": li, "eol": eol, "fmt": fmt, "third": third}
                         k += 1
+
+
+# partial patterns in which a literal digit stands directly before a part name (`20YY`: the century written out, a
+# copyright line): (version pattern, current, update args, new, file pattern, line before, line after)
+GLUED = [
+    ("YYYY.BUILD", "2023.1001", ["--date", "2024-03-01"], "2024.1002", "copyright 2010-20YY acme", "copyright 2010-2023 acme",
+     "copyright 2010-2024 acme"),
+    ("MAJOR.MINOR.PATCH", "1.2.3", ["--major"], "2.0.0", "api-rev0MAJOR", "api-rev01", "api-rev02"),
+    ("MAJOR.MINOR.PATCH", "1.2.3", ["--minor"], "1.3.0", "schema 1.0MINOR;", "schema 1.02;", "schema 1.03;"),
+    ("YYYY.0M.INC0", "2021.05.3", ["--date", "2022-06-01"], "2022.06.0", "date: 20YY-0M", "date: 2021-05", "date: 2022-06"),
+    ("vYYYY.MM.DD", "v2021.5.9", ["--date", "2022-06-07"], "v2022.6.7", "day 0DD of 0MM", "day 09 of 05", "day 07 of 06"),
+]
+
+
+def run_bom(ctx, case):
+    """a file that starts with a byte order mark (the usual state of C# sources) and a pattern anchored with `^`: the first
+    line is a line like any other"""
+    legacy = case["legacy"]
+    eol = case["eol"]
+    vp, cur, uargs, new = ("{semver}", "1.2.3", ["--patch"], "1.2.4") if legacy else ("MAJOR.MINOR.PATCH", "1.2.3", ["--patch"], "1.2.4")
+    pat = "^// version {version}" + ("$" if case["dollar"] else "")
+    lines = ["\ufeff// version " + cur, "using System;", "// version " + cur, "end"]
+    want = eol.join(ln.replace(cur, new) for ln in lines)
+    cfg = (f'[bumpver]\ncurrent_version = "{cur}"\nversion_pattern = "{vp}"\n\n[bumpver.file_patterns]\n'
+           '"bumpver.toml" = [\'current_version = "{version}"\']\n"A.cs" = [' + projects.toml_str(pat) + "]\n")
+    d = harness.new_project({"bumpver.toml": cfg.encode(), "A.cs": eol.join(lines).encode("utf-8")})
+    try:
+        res = harness.invoke(["update", "--no-fetch"] + uargs, cwd=d)
+        ctx.count("updates_of_files_with_bom_and_start_anchored_pattern")
+        ctx.evaluated(("bom-anchored", legacy, eol, case["dollar"]), sample={"pattern": pat, "argv": res.args})
+        if res.exit_code != 0:
+            ctx.violation("other:bom_anchored_update_failed", f"pattern {pat!r}: exit {res.exit_code} {res.errors()[-2:]} {res.crash or ''}",
+                          case=case)
+            return
+        got = harness.snapshot(d)["A.cs"].decode("utf-8")
+        if got != want:
+            ctx.violation("other:stale-or-wrong-occurrence", f"pattern {pat!r} on a file with a byte order mark: after the update "
+                          f"the file reads {got!r}, expected {want!r}", case=case)
+    finally:
+        harness.rm_dir(d)
+
+
+def run_glued(ctx, case):
+    vp, cur, uargs, new, pat, before, after_line = GLUED[case["i"]]
+    eol = case["eol"]
+    lines = ["# notes", before, "", f"version {cur}", "end"]
+    want = eol.join(["# notes", after_line, "", f"version {new}", "end"])
+    cfg = (f'[bumpver]\ncurrent_version = "{cur}"\nversion_pattern = "{vp}"\n\n[bumpver.file_patterns]\n'
+           '"bumpver.toml" = [\'current_version = "{version}"\']\n"NOTES.txt" = ["version {version}", '
+           + projects.toml_str(pat) + "]\n")
+    d = harness.new_project({"bumpver.toml": cfg.encode(), "NOTES.txt": eol.join(lines).encode()})
+    try:
+        res = harness.invoke(["update", "--no-fetch"] + uargs, cwd=d)
+        ctx.count("updates_with_a_literal_digit_before_a_part")
+        ctx.evaluated(("glued", vp, pat, eol), sample={"pattern": pat, "line": before, "argv": res.args})
+        a = res.record_value("New Version: ")
+        if res.exit_code != 0 or a != new:
+            ctx.violation("other:glued_literal_update_failed", f"pattern {pat!r} (vp {vp!r}): exit {res.exit_code}, announced {a!r} "
+                          f"(expected {new!r}) {res.errors()[-2:]} {res.crash or ''}", case=case)
+            return
+        got = harness.snapshot(d)["NOTES.txt"].decode()
+        if got != want:
+            ctx.violation("other:stale-or-wrong-occurrence", f"pattern {pat!r} (vp {vp!r}): after the update to {new!r} the file "
+                          f"reads {got!r}, expected {want!r}", case=case)
+    finally:
+        harness.rm_dir(d)
 
 
 def run_inner(ctx, case):
@@ -146,6 +223,10 @@ def noncanonical_numeric(R, vp, text):
 
 
 def run_case(ctx, case):
+    if case.get("kind") == "glued":
+        return run_glued(ctx, case)
+    if case.get("kind") == "bom":
+        return run_bom(ctx, case)
     if case.get("kind") == "inner-match":
         return run_inner(ctx, case)
     R = random.Random(case["pseed"])
